@@ -15,7 +15,7 @@ import tempfile
 from harness.lib import hx, cz, clist
 
 ID = 'C04'
-RULE = ('[every index spelling: slice, mask as ndarray / list of bools / list of np.bool_, ints as list / list of np ints / ndarray of 9 int dtypes / empty list, single; fields looked at before a selection + attribute assignment; sessions: several tables derived from one source, source/intermediate tables written after the derived ones; selections that keep first+last record and permute / repeat equal-length inner records; round 6: FASTQ/FASTA replaced fields (lazy) and np.concatenate (eager) incl. quality on eager tables, CRLF VCFBuffer2/SAM replaced fields, with empty sequences, one-record files, empty/short/long replacement texts, first/last field, repeats then replacement, table ++ table, nested concatenations, operands with replaced columns] files of 1-5 records for BED/BED6/narrowPeak/VCF(VCFBuffer and VCFBuffer2, with and without genotype columns)/SAM '
+RULE = ('[every index spelling: slice, mask as ndarray / list of bools / list of np.bool_, ints as list / list of np ints / ndarray of 9 int dtypes / empty list, single; fields looked at before a selection + attribute assignment; sessions: several tables derived from one source, source/intermediate tables written after the derived ones; selections that keep first+last record and permute / repeat equal-length inner records; round 6: FASTQ/FASTA replaced fields (lazy) and np.concatenate (eager) incl. quality (lazy and eager tables), mixed eager+lazy concatenation operands, CRLF VCFBuffer2/SAM replaced fields, with empty sequences, one-record files, empty/short/long replacement texts, first/last field, repeats then replacement, table ++ table, nested concatenations, operands with replaced columns] files of 1-5 records for BED/BED6/narrowPeak/VCF(VCFBuffer and VCFBuffer2, with and without genotype columns)/SAM '
         '(0-3 optional tags)/GTF/FASTQ(+name lines)/two-line FASTA/BAM with non-canonical spellings (leading zeros, +5, 1e3), '
         'LF and CRLF; programs = trees of selections (slice, step incl. negative, mask, int list with repeats, single index), '
         'concatenations (2-3 operands), replacements of 1-3 fields and intermediate writes; exhaustive index-menu programs of '
@@ -35,12 +35,12 @@ PARTIAL = ['END-TO-END THEOREMS (file bytes -> written bytes satisfy the byte-le
            'still correspondence-only at byte level: GTF (read eagerly: known finding), BedBuffer/VCFBuffer files with more columns than the entry '
            'type under replacement (known finding: trailing columns dropped); for these the abstraction-level '
            'theorem C04_program_write + the per-file hypothesis check Corr.C04.hyp_ok + spec_ok per case apply',
-           'C04_fastq_lazy_quality_refuted: a LAZY FASTQ table with a replaced quality column cannot be written (get_column raises on the RaggedArray of '
-           'qualities); modelled as a refusal, proposed finding C04-fastq-lazy-quality-replace-refused (notes/C04.findings.json) — generated only once that id '
-           'is listed in known_findings.json / VERIF_EXTRA_FINDINGS; quality replacement on eager tables (after np.concatenate) is generated and proved',
+           'history (explicit `pinned` variant, code before /repo ddae115): C04_fastq_lazy_quality_refuted — a LAZY FASTQ table with a replaced quality column was refused by the writer; '
+           'repaired: C04_oneline_write_total (nothing is refused for FASTQ/FASTA), quality replacement on lazy tables and mixed eager+lazy np.concatenate operands '
+           '(/repo 5965ca7) are ordinary generated programs covered by C04_oneline_program_end_to_end',
            'refuted for the code before fix-1/fix-2 (kept as history, explicit `pinned` variant): C04_crlf_selection_pinned_refuted, '
            'C04_sam_replace_pinned_refuted; still refuted at HEAD: C04_trailing_columns_pinned_refuted, C04_gtf_pinned_refuted',
-           'concatenation of tabular operands (BED/VCF/SAM) that already carry replaced fields, and of mixed lazy/eager one-line operands, is outside the model (C05 covers the former)']
+           'concatenation of tabular operands (BED/VCF/SAM) that already carry replaced fields is outside the model (C05 covers it)']
 PER_FILE = 24
 
 # ----------------------------------------------------------------------------- formats
@@ -59,7 +59,7 @@ FIELDS = {
     'sam': [(0, 'name', 'id'), (1, 'flag', 'int'), (2, 'chromosome', 'id'), (3, 'position', 'int'), (4, 'mapq', 'int'),
             (5, 'cigar', 'str'), (6, 'next_chromosome', 'str'), (7, 'next_position', 'int'), (8, 'length', 'int'),
             (9, 'sequence', 'str'), (10, 'quality', 'str')],
-    'fastq': [(0, 'name', 'id'), (1, 'sequence', 'str')],
+    'fastq': [(0, 'name', 'id'), (1, 'sequence', 'str'), (2, 'quality', 'qual')],
     'fasta': [(0, 'name', 'id'), (1, 'sequence', 'str')],
     'gtf': [(0, 'chromosome', 'id'), (1, 'source', 'str'), (2, 'feature_type', 'id'), (3, 'start', 'int'), (4, 'stop', 'int'),
             (5, 'score', 'str'), (7, 'phase', 'str'), (8, 'atributes', 'str')],
@@ -238,6 +238,8 @@ def _values(rng, fmt, j, kind, n):
         return [rng.choice([0, 7, 10, 99, 100, 12345, 5]) for _ in range(n)]
     if kind == 'id':
         return [rng.choice(['x', 'yy', 'zz9', 'chr5']) for _ in range(n)]
+    if kind == 'qual':
+        return [rng.choice(['', 'I', '#5', 'II?+@', '5555#####']) for _ in range(n)]
     if fmt in ('fastq', 'fasta') or (fmt == 'sam' and j == 9):
         return [rng.choice(['AA', 'C', 'GGGTTT', 'ACGTA']) for _ in range(n)]
     return [rng.choice(['v', 'w2', 'PASS', 'longer_text', '1e3']) for _ in range(n)]
@@ -265,9 +267,7 @@ def _gen_tree(rng, fmt, n_src, depth, cat_ok):
     """selection/concatenation tree without replacements."""
     if cat_ok and depth > 0 and rng.random() < 0.45:
         k = rng.choice([2, 2, 3])
-        sub_cat_ok = cat_ok and fmt not in ('fastq', 'fasta')
-        if fmt in ('fastq', 'fasta'):
-            sub_cat_ok = False
+        sub_cat_ok = cat_ok      # one-line buffers too: an eager operand next to lazy ones is an ordinary program (/repo 5965ca7)
         ops = [_gen_tree(rng, fmt, n_src, depth - 1, sub_cat_ok) for _ in range(k)]
         p = ['cat', [o[0] for o in ops]]
         n = sum(o[1] for o in ops)
@@ -416,26 +416,8 @@ def generate(tier, seed):
     return cases
 
 
-QUAL = (2, 'quality', 'qual')
 TEXTS = {'id': ['', 'x', 'a_much_longer_name 12/1'], 'str': ['', 'A', 'ACGTACGTACGTNNAC'], 'qual': ['', 'I', '#5?+@II5#'],
          'int': [0, 7, 123456789], 'int1': [0, 7, 123456789]}
-LAZY_QUALITY_FINDING = 'C04-fastq-lazy-quality-replace-refused'
-
-
-def _lazy_quality_listed():
-    """the refused write of a lazy FASTQ table with replaced qualities is generated only once it is a listed finding"""
-    import json
-    ids = set()
-    root = os.path.dirname(os.path.dirname(os.path.dirname(os.path.abspath(__file__))))
-    for q in (os.path.join(root, 'known_findings.json'), os.environ.get('VERIF_EXTRA_FINDINGS')):
-        try:
-            d = json.load(open(q))
-            for e in (d.get('findings', []) if isinstance(d, dict) else d):
-                if isinstance(e, dict) and 'id' in e:
-                    ids.add(e['id'])
-        except Exception:
-            pass
-    return LAZY_QUALITY_FINDING in ids
 
 
 def _boundary_file(fmt, rng, n, eol, k):
@@ -469,9 +451,8 @@ def _r6_repl(fld, n, k, p):
 def _gen_round6(rng, quick):
     out = []
     k = 0
-    lazyq = _lazy_quality_listed()
     for fmt in ('fastq', 'fasta'):
-        flds = list(FIELDS[fmt]) + ([QUAL] if fmt == 'fastq' else [])
+        flds = list(FIELDS[fmt])
         first, last = flds[0], flds[-1]
         for eol in ('lf', 'crlf'):
             for n in (1, 2, 3):
@@ -482,28 +463,31 @@ def _gen_round6(rng, quick):
                     ident = ['idx', ['slice', None, None, None], list(range(n)), ['src']]
                     for fld in flds:
                         k += 1
-                        lazy_ok = fld is not QUAL or lazyq
-                        if lazy_ok:
-                            out.append(_mk(f, _r6_repl(fld, n, k, ['src'])))                        # replacement on the table as read
-                            out.append(_mk(f, _r6_repl(fld, 3, k + 1, S)))                          # repeats, then replacement
-                            out.append(_mk(f, ['idx', ['list', [2, 2, 0]], [2, 2, 0], _r6_repl(fld, 3, k + 2, S)]))   # ... then selection
-                            out.append(_mk(f, _r6_repl(fld, 3, k + 3, ['touch', S])))               # after an intermediate write
+                        out.append(_mk(f, _r6_repl(fld, n, k, ['src'])))                        # replacement on the table as read
+                        out.append(_mk(f, _r6_repl(fld, 3, k + 1, S)))                          # repeats, then replacement
+                        out.append(_mk(f, ['idx', ['list', [2, 2, 0]], [2, 2, 0], _r6_repl(fld, 3, k + 2, S)]))   # ... then selection
+                        out.append(_mk(f, _r6_repl(fld, 3, k + 3, ['touch', S])))               # after an intermediate write
                         both = ['cat', [['src'], ['src']]]
                         out.append(_mk(f, _r6_repl(fld, 2 * n, k, both)))                          # table ++ table, replaced
                         out.append(_mk(f, ['idx', ['list', [2 * n - 1, 0, 0, n]], [2 * n - 1, 0, 0, n], _r6_repl(fld, 2 * n, k + 3, both)]))
                         out.append(_mk(f, _r6_repl(fld, 4, k + 1, ['touch', ['cat', [S, ['idx', ['list', [0]], [0], ['src']]]]])))
-                        if fld is not QUAL:
-                            other = last if fld is first else first
-                            if other is not QUAL or lazyq:
-                                out.append(_mk(f, _r6_repl(other, n, k + 2, _r6_repl(fld, n, k + 1, ['src']))))   # first and last field
-                            out.append(_mk(f, ['cat', [_r6_repl(fld, n, k + 3, ['src']), ['src']]]))                # operand with a replaced column
-                            out.append(_mk(f, ['cat', [_r6_repl(fld, 3, k, S), _r6_repl(fld, n, k + 1, ident)]]))
+                        other = last if fld is first else first
+                        out.append(_mk(f, _r6_repl(other, n, k + 2, _r6_repl(fld, n, k + 1, ['src']))))   # first and last field
+                        out.append(_mk(f, ['cat', [_r6_repl(fld, n, k + 3, ['src']), ['src']]]))                # operand with a replaced column
+                        out.append(_mk(f, ['cat', [_r6_repl(fld, 3, k, S), _r6_repl(fld, n, k + 1, ident)]]))
+                        # MIXED operands: an eager table (an earlier concatenation) next to lazy ones, either order, with replaced columns
+                        out.append(_mk(f, ['cat', [both, _r6_repl(fld, 3, k + 2, S)]]))
+                        out.append(_mk(f, ['cat', [_r6_repl(fld, n, k + 1, ['src']), ['touch', both], ['src']]]))
+                        out.append(_mk(f, _r6_repl(fld, 3 * n, k + 3, ['cat', [['src'], _r6_repl(fld, 2 * n, k, both)]])))
                         out.append(_mk(f, _r6_repl(last, 2 * n, k + 2, _r6_repl(first, 2 * n, k + 3, both))))     # first and last, eager
                     out.append(_mk(f, both))
                     out.append(_mk(f, ['idx', ['list', [0, 2 * n - 1, 0]], [0, 2 * n - 1, 0], ['touch', both]]))
                     out.append(_mk(f, ['cat', [['cat', [['src'], S]], ['cat', [ident]]]]))                         # nested, all operands eager
                     out.append(_mk(f, ['cat', [['idx', ['list', []], [], ['src']], ['idx', ['array', []], [], ['src']]]]))
                     out.append(_mk(f, ['cat', [['idx', ['list', []], [], ['src']], S, ['src']]]))
+                    out.append(_mk(f, ['cat', [both, ['src']]]))                                                    # mixed: eager first
+                    out.append(_mk(f, ['idx', ['list', [3 * n - 1, 0, n]], [3 * n - 1, 0, n], ['cat', [['src'], both]]]))   # mixed: lazy first
+                    out.append(_mk(f, ['cat', [['idx', ['list', []], [], both], S]]))                               # empty eager operand
     for fmt in ('vcf2', 'sam'):
         flds = FIELDS[fmt]
         first, last = flds[0], flds[-1]
@@ -863,21 +847,9 @@ def _canon_int(t):
     return ('-' if neg and s != '0' else '') + s
 
 
-def _lazy_quality(p):
-    """the table written is a LAZY FASTQ table (no np.concatenate on the way) with a replaced quality column"""
-    while True:
-        if p[0] in ('src', 'cat', 'ref'):
-            return False
-        if p[0] == 'repl' and p[1] == 2:
-            return not _has(p[5], ('cat',))
-        p = p[-1]
-
-
 def _finding1(case, o):
     fmt = case['fmt']
     crlf = any(r['eol'] == 'crlf' for r in case['recs'])
-    if fmt == 'fastq' and o.get('error') in ('ValueError', 'TypeError') and _lazy_quality(case['prog']):
-        return LAZY_QUALITY_FINDING
     body = _body_of(case, o)
     if body is None:
         return None
